@@ -407,6 +407,40 @@ def r9(ctx, rep):
     rep.check(n_open >= 6, "openers", f"expected >= 6 scope-changing calls in the resolver, found {n_open}")
 
 
+REJECTIONS = {
+    "unknown-name": "Unknown name",
+    "ambiguous-name": "Ambiguous name",
+    "too-many-arguments": "Too many arguments",
+    "unknown-named-argument": "unknown named argument",
+    "relation-required": "a table or query",
+}
+
+
+def r10(ctx, rep):
+    rep.rule("C10.R10", "each documented rejection is still constructed somewhere the resolver reaches from `semantic::resolve`", floor=5)
+    syn, cg = ctx.syn, ctx.cg
+    roots = [fid for fid in cg.fns if fid.endswith("semantic::resolve") or fid.endswith("semantic::resolve_and_lower")]
+    seen = cg.reachable(roots)
+    reach_at = {}
+    for fid in seen:
+        o = cg.owner_fn(fid)
+        reach_at.setdefault(o["file"], []).append((o.get("sl", o.get("l", 0)), o.get("el", o.get("l", 0)), last_seg(o["path"])))
+
+    def reachable_syn(f):
+        # syn and driver name impl methods differently: join on file, name and line range
+        return any(nm == f["name"] and sl - 3 <= f["l"] <= el for sl, el, nm in reach_at.get(f["file"], []))
+    for key, text in REJECTIONS.items():
+        sites = []
+        for f in syn.fns:
+            if f["crate"] != "prqlc" or "/semantic/" not in f["file"] or "body" not in f:
+                continue
+            if any(text in v for v in strs(f["body"])):
+                sites.append(f)
+        reach = [f for f in sites if reachable_syn(f)]
+        rep.check(bool(reach), f"rejection:{key}", f"no function reachable from semantic::resolve builds the error `{text}..` any more ({len(sites)} site(s) in the tree, none reachable): "
+                  "the programs it rejected are now accepted or fail with another message", file=sites[0]["file"] if sites else None, line=sites[0]["l"] if sites else None)
+
+
 def run(ctx, rep):
-    for r in (r1, r2, r3, r4, r5, r6, r7, r8, r9):
+    for r in (r1, r2, r3, r4, r5, r6, r7, r8, r9, r10):
         rep.guard(r, ctx)
